@@ -40,6 +40,10 @@ def gen_program(rng, i, profile):
                  + ([f"C {k}"] if rng.random() < 0.3 else [])]
         if rng.random() < 0.3:
             progs.append([f"G {k}"] + S())
+        if rng.random() < 0.35:
+            # one thread inserts, invalidates everything at a later reading and looks; the other re-inserts the key
+            progs = [[f"I {k} 101"] + S(0.5) + adv() + ["A"] + (adv() if rng.random() < 0.6 else []) + [f"G {k}"],
+                     [f"I {k} 102"] + ([f"G {k}"] if rng.random() < 0.3 else [])]
         for t, ops in enumerate(progs):
             lines.append(f"TH {t} " + " ; ".join(ops))
         return lines, len(progs)
@@ -131,6 +135,12 @@ def oracle_termination(lines, run):
     return None
 
 
+def before(x, y):
+    """x returned before y was invoked: by the step stamps, or by program order on one thread (consecutive
+    operations of a thread carry the same stamp: the thread does not pass a switch point in between)."""
+    return x["end"] < y["start"] or (x["t"] == y["t"] and x["i"] < y["i"])
+
+
 def oracle_coherence(lines, run):
     ops = run["ops"]
     writes = {}
@@ -148,16 +158,16 @@ def oracle_coherence(lines, run):
         w = writes.get((k, g["res"]))
         if w is None:
             return f"t{g['t']} get({k}) returned {g['res']} which no insert({k}, .) wrote"
-        if w["start"] > g["end"]:
+        if before(g, w):
             return f"t{g['t']} get({k}) returned {g['res']} before the insert that wrote it began"
         for m in mods.get(k, []):
-            if m is not w and m["start"] > w["end"] and m["end"] < g["start"]:
+            if m is not w and before(w, m) and before(m, g):
                 return (f"t{g['t']} get({k}) returned {g['res']}, superseded by `{' '.join(m['op'])}` of t{m['t']} "
                         f"which completed before the get began")
         # invalidate_all issued at a strictly later clock reading than the insert, completed before the get began
         for a in ops:
             if a["op"][0] == "A" and a["now0"] is not None and w["now1"] is not None and \
-                    w["now1"] < a["now0"] and w["end"] < a["start"] and a["end"] < g["start"]:
+                    w["now1"] < a["now0"] and before(w, a) and before(a, g):
                 return (f"t{g['t']} get({k}) returned {g['res']} although invalidate_all of t{a['t']} (clock {a['now0']}), issued at a "
                         f"strictly later reading than that insert (clock {w['now1']}), completed before the get began")
     # monotone reads per single writer
@@ -179,7 +189,7 @@ def oracle_coherence(lines, run):
             if w is None:
                 return f"after all threads stopped the cache holds {k}->{e['v']} which nobody wrote"
             for m in mods.get(k, []):
-                if m is not w and m["start"] > w["end"]:
+                if m is not w and before(w, m):
                     return (f"after all threads stopped the cache holds {k}->{e['v']} although `{' '.join(m['op'])}` of "
                             f"t{m['t']} began after that insert had returned")
     return None
@@ -254,6 +264,14 @@ def explore(pid, tier, seed, nprog, exhaustive_bound):
         cases.append((f"p{i}_seq", lines + ["RUN"]))
         for j in range(3 if tier == "quick" else 12):
             cases.append((f"p{i}_r{j}", lines + ["SCHED " + " ".join(random_schedule(rng, nth)), "RUN"]))
+        if nth == 2 and (profile == "invall" or (profile == "tiny" and tier == "thorough")):
+            # prefix x prefix: thread a runs to its i-th switch point, thread b to its j-th, then a to the end, then b
+            # (one thread parked in the middle of an operation while the other runs whole operations)
+            for a in (0, 1):
+                for i_ in range(0, 22):
+                    for j_ in range(1, 11):
+                        sched = [str(a)] * i_ + [str(1 - a)] * j_ + [str(a)] * 150 + [str(1 - a)] * 150
+                        cases.append((f"p{i}_q{a}_{i_}_{j_}", lines + ["SCHED " + " ".join(sched), "RUN"]))
         if profile in ("tiny", "invall") or tier == "thorough":
             horizon = 60
             pts = list(range(1, horizon, 1 if tier == "thorough" else 3))
@@ -363,6 +381,9 @@ def run(pid, tier, seed, model_ok, replay, nprog=None):
         brng = random.Random(seed * 11 + 9)
         bursts = [gen.gen_burst(brng, 9700 + i) for i in range(8 if tier == "quick" else 120)]
         bursts += [gen.gen_cache_case(brng, "sync", 9900 + i) for i in range(250 if tier == "quick" else 2500)]
+        import motifs
+        bursts += [gen.gen_skip_case(brng, "sync", 8000 + i) for i in range(60 if tier == "quick" else 600)]
+        bursts += [motifs.gen_motif_case(brng, "sync", 6000 + i) for i in range(100 if tier == "quick" else 1000)]
         burst_res = p_cache.run_cases(pid, _orc.oracle_safety, p_cache.PROJ["counters"], bursts, model_ok)
         violations += burst_res["violations"]
         disagreements += burst_res["disagreements"]
